@@ -148,6 +148,9 @@ fn svg_record(seed: u64, n: u64, target: usize, path: &str) -> Value {
             // different direct colours whose hexadecimal digits coincide once leading zeros are dropped (#012345 / #120345,
             // #0A0B0C / #A0B0C0 ...) in all three slots of ONE document
             6 if k % 3 == 1 => format!("\x1b[38;2;1;35;69mA\x1b[38;2;18;3;69mB\x1b[0m\x1b[48;2;10;11;12mC\x1b[48;2;160;176;192mD\x1b[0m\x1b[4;58;2;1;2;3mE\x1b[58;2;16;32;48mF\x1b[58;2;0;18;3mG\x1b[0m\n{}", svg_text(&mut r, target / 2)),
+            // one span carrying (nearly) every attribute at once - several underline styles included: however the classes of a
+            // span are collected, there is room for all of them
+            6 if k % 3 == 2 => format!("\x1b[1;2;3;4;21;4:3;4:4;4:5;5;7;8;9;31;42;58;5;3mall\x1b[0m \x1b[1;2;3;4;8;9;21;31;58;5;3mX\x1b[0m \x1b[1;2;3;4;21;4:3;4:4;4:5;9;38;2;1;2;3;48;2;4;5;6;58;2;7;8;9mY\x1b[0m\n{}", svg_text(&mut r, target / 2)),
             6 if k % 3 == 0 => format!("\x1b[4;31m  \x1b[32mx\x1b[0m\n\x1b[9;35m\t\x1b[36my\x1b[0m \x1b[41m \x1b[44m \x1b[0m|\n{}", svg_text(&mut r, target / 2)),
             4 if k % 2 == 0 => format!("kl\r\x1b[31m\nmn\x1b[0m\r\x1b[4m\x1b[K\nop{}", svg_text(&mut r, target / 2)),
             // no escape sequence at all, but controls that are executed (BEL, BS, SOH, VT, SO): the text goes through the same
@@ -195,6 +198,7 @@ fn total_run(seed: u64, n: u64, target: usize, path: &str) -> Value {
                 v
             }
             0 => gen::gen_stream(&mut r, target, gen::Flavor::Utf8),
+            1 if k % 10 == 1 => format!("\x1b[1;2;3;4;21;4:3;4:4;4:5;5;7;8;9;31;42;58;5;3mall\x1b[0m \x1b[1;2;3;4;8;9;21;31;58;5;3mX\x1b[0m\n").into_bytes(),
             1 => gen::gen_styled_text(&mut r, target, true),
             2 => String::from_utf8_lossy(&gen::gen_stream(&mut r, target, gen::Flavor::Full)).into_owned().into_bytes(),
             3 => {
